@@ -85,6 +85,9 @@ type interpreter struct {
 	noMerge        bool
 	scaleFrom      int64
 	scaleTo        int64
+	mapOrderBoth    bool
+	mapOrderDecided bool
+	mapOrderRev     bool
 }
 
 type deferred struct {
